@@ -57,7 +57,6 @@ class TypeAuditor final : public ASTVisitor<TypeAuditor> {
   ExpressionType currentType{};
 
   std::vector<LocalData> localVars{};
-  std::vector<size_t> functionArgsID{};
   FunctionArguments functionArgs{};
 
   bool isTypification{ false };
